@@ -88,6 +88,16 @@ def forced_rows(rng, ns):
         r = [rng.choice(['R', 'S', 'N']) for _ in range(ns)]
         r[rng.randrange(ns)] = 'A'
         rows.append(r)                                                  # one unambiguous, rest ambiguous
+    if ns >= 3:
+        # exactly one unambiguous base, one or two ambiguity codes, gaps elsewhere (count 1 under --filter-ambig-as-missing, yet
+        # two distinct non-gap symbols)
+        for _ in range(2):
+            r = ['-'] * ns
+            idx = rng.sample(range(ns), min(ns, rng.choice([2, 3])))
+            r[idx[0]] = rng.choice('ACGT')
+            for i_ in idx[1:]:
+                r[i_] = rng.choice(['Y', 'R', 'N', 'S'])
+            rows.append(r)
     for j in range(1, ns + 1):                                          # every presence count
         idx = set(rng.sample(range(ns), j))
         rows.append([rng.choice('ACGT' + ('RN' if rng.random() < 0.3 else '')) if i in idx else '-' for i in range(ns)])
